@@ -42,4 +42,57 @@ def rp66StopIndexSample (n s : Nat) : Int :=
   | some i => (i : Int)
   | none => sampleLast n s
 
+/-! ### Negative steps
+
+`convRowsSlice` already is Python list slicing `xs[first : last+1 : step]` for every non-zero step (negative bounds wrap,
+as numpy / list slicing does): this is what **BIT** applies to its arrays.  Two gates sit around it. -/
+
+/-- What the BIT converter does with the sliced arrays: nothing is written when `Slice.count()` is 0; with a positive count
+and empty sliced arrays `x_axis.array[0]` raises IndexError; else the sliced rows are written. -/
+inductive BitOut where
+  | rows (l : List Int)
+  | indexError
+  deriving Repr, DecidableEq
+
+def bitOutSlice (start stop step : Option Int) (n : Nat) : Except Err BitOut :=
+  match sliceCount start stop step n, convRowsSlice start stop step n with
+  | .ok 0, .ok _ => .ok (.rows [])
+  | .ok _, .ok [] => .ok .indexError
+  | .ok _, .ok l => .ok (.rows l)
+  | .error e, _ => .error e
+  | _, .error e => .error e
+
+/-- index of the data record that holds frame `i`, given the frames per data record of the log pass -/
+def recordOf : List Nat → Nat → Nat
+  | [], _ => 0
+  | k :: ks, i => if i < k then 0 else 1 + recordOf ks (i - k)
+
+/-- two consecutive selected frames lie in the same data record (frames of a record are contiguous, so this is
+"some record holds at least two selected frames") -/
+def sharesRecord (fpr : List Nat) : List Int → Bool
+  | a :: b :: r => (recordOf fpr a.toNat == recordOf fpr b.toNat) || sharesRecord fpr (b :: r)
+  | _ => false
+
+/-- What the LIS converter does with `slice(first, last+1, step)` on a log pass with `fpr` frames per data record:
+`FrameSet` sizes itself with `len(range(first, last+1, step))` (no wrapping of negative bounds); an empty frame set writes
+no row. Otherwise the frames are read record by record in file order; within a record the offsets are turned back into a
+slice (`_sliceFromList`), which for a step below 1 has a negative step as soon as the record holds two selected frames and
+is then refused by `Type01Plan` (`ExceptionFrameSetPlanNegLen`, file reported failed); with at most one selected frame per
+record the rows are written in file order, i.e. **ascending** - the reverse of the selection. -/
+inductive LisOut where
+  | rows (l : List Int)
+  | planError
+  deriving Repr, DecidableEq
+
+def lisOutSlice (fpr : List Nat) (start stop step : Option Int) (n : Nat) : Except Err LisOut :=
+  match sliceFirst start stop step n, sliceLast start stop step n, sliceStep start stop step n with
+  | .ok f, .ok l, .ok st =>
+    if rangeLen f (l + 1) st = 0 then .ok (.rows [])
+    else if st < 1 then
+      (if sharesRecord fpr (rangeList f (l + 1) st) then .ok .planError else .ok (.rows (rangeList f (l + 1) st).reverse))
+    else .ok (.rows (rangeList f (l + 1) st))
+  | .error e, _, _ => .error e
+  | _, .error e, _ => .error e
+  | _, _, .error e => .error e
+
 end TD.C11
